@@ -553,16 +553,25 @@ func TestVerif_C04(t *testing.T) {
 		for _, k := range []int{8, 16, 31, 32, 33, 62, 63} {
 			for _, d := range []int{-300, -299, -200, -1, 0, 1, 200, 204, 299, 300} {
 				for _, sign := range []int{1, -1} {
-					c := mk()
-					c.Status = sign*(1<<k) + d
-					c.MaxAge = sign*(1<<k) + d
-					c04RunSpec(r, l, c, "new")
-					l.nontrivN++
+					// each integer field on its own (a second violation in the other field would hide an accepted first one;
+					// lesson of seeded change C04-o) and both together
+					for which := 0; which < 3; which++ {
+						c := mk()
+						if which != 1 {
+							c.Status = sign*(1<<k) + d
+						}
+						if which != 0 {
+							c.MaxAge = sign*(1<<k) + d
+						}
+						c04RunSpec(r, l, c, "new")
+						c04RunSpec(r, l, c, "reconf-zero")
+						l.nontrivN++
+					}
 				}
 			}
 		}
 	})
-	r.Exhaustive("max-age in [-70000,-10] u [86390,90000] (and every 997th value between), status in [-1000,70000], +-2^k+d for k in {8,16,31,32,33,62,63}")
+	r.Exhaustive("max-age in [-70000,-10] u [86390,90000] (and every 997th value between), status in [-1000,70000], +-2^k+d for k in {8,16,31,32,33,62,63} in each integer field alone and in both")
 
 	// ---- (a3) stratified multi-violation mixes
 	nb := pick(r, 64, 1024)
